@@ -51,7 +51,7 @@ class Run:
         self.obligations = []
         self.obligations_sink = self.obligations   # sub-evaluations (merged clauses) record lemma obligations in the outer run
         self.tags = []
-        self.ghost = {'_qdefs': {}, '_pure': {}, '_spec_inst': set(), '_unfolding': {}, '_combs': {}, '_fm_apps': [], '_snoc': {},
+        self.ghost = {'_qdefs': {}, '_pure': {}, '_spec_inst': set(), '_unfolding': {}, '_combs': {}, '_fm_apps': [], '_snoc': {}, '_gsnoc': {}, '_captured': [], '_pure_args': {},
                       '_join_inst': set(), '_wf_maps': set(), '_axiom_ids': set(), '_modcache': {}, '_lemma_ids': set()}
         # named ghost state (file system, handler lists, definitions of named formulas ...) + caches shared with sub-evaluations
         self.inputs = {}            # name -> (kind, term) : the symbols a replay has to decode
